@@ -22,8 +22,10 @@ META = {
               "c10:payload_transition:block->zero": 20,
               "c10:payload_transition:zero->block": 20,
               "op:sym.rename": 250, "moves": 1000},
-    "assumptions": ["names are drawn from {'', 'a', 'b', 'main'} so that "
-                    "shared names are the norm"],
+    "assumptions": ["names are drawn from a pool of ten (empty, short, long, "
+                    "composed and decomposed forms of one text) so that "
+                    "shared names are the norm; every name handed to the "
+                    "API is a string object of its own"],
 }
 
 
